@@ -156,7 +156,7 @@ def _extra(draw):
     return d
 
 
-EXHAUSTIVE_NOTE = 'linear_interp boundary sweep: every table length 2..40 x 5 origins x 5 widths x float32/float64 x xd at both ends and every node, each -3..+3 ulp (enumerated completely; the other kernel groups are sampled)'
+EXHAUSTIVE_NOTE = 'cumsum for every length 0..2 x flag combination x dtype pairing; linear_interp boundary sweep: every table length 2..40 x 5 origins x 5 widths x float32/float64 x xd at both ends and every node, each -3..+3 ulp (enumerated completely; the other kernel groups are sampled)'
 
 
 def exhaustive(tier, shard, nshards):
@@ -167,6 +167,18 @@ def exhaustive(tier, shard, nshards):
             if k % nshards != shard:
                 continue
             yield {'g': 'extra', 'd': {'k': 'interp_sweep', 'dt': dt, 'n': n}}
+    # cumsum: every (length 0..2) x (initial, final) x dtype pairing with a right-length output (cheap, finite)
+    for n in (0, 1, 2):
+        for initial in (False, True):
+            for final in (False, True):
+                if n - 1 + initial + final < 0:
+                    continue
+                for ind in ('int32', 'int64', 'uint32', 'uint64', 'float32', 'float64'):
+                    for outd in ('int64', 'uint64', 'float32', 'float64'):
+                        k += 1
+                        if k % nshards != shard:
+                            continue
+                        yield {'g': 'cumsum', 'd': dict(n=n, initial=initial, final=final, kind='array', ind=ind, outd=outd, frac=False, vals=[3, 4][:n], offset=0, delta=0)}
 
 
 def strategy(tier):
